@@ -212,11 +212,24 @@ fn obj_in(m: &mut Model, a: V, b: V) -> R<bool> {
         }
         (V::Str(s), V::Str(v)) => Ok(v.contains(s.as_str())),
         (_, V::Stream(s)) => {
-            if Model::stream_is_infinite(s) {
-                return unknown("in: infinite stream");
+            // element by element, stopping at the first match
+            let mut cur = s.clone();
+            let mut guard = 0;
+            loop {
+                match m.stream_next(&cur)? {
+                    None => return Ok(false),
+                    Some((x, rest)) => {
+                        if veq(&x, &a) {
+                            return Ok(true);
+                        }
+                        cur = rest;
+                    }
+                }
+                guard += 1;
+                if guard > 5000 {
+                    return unknown("in: no match within the model's horizon (infinite stream)");
+                }
             }
-            let xs = m.force_stream(s)?;
-            Ok(xs.iter().any(|e| veq(e, &a)))
         }
         (_, V::List(_)) | (_, V::Vector(_)) | (_, V::Bytes(_)) | (_, V::Str(_)) => {
             let xs = m.iterate(&b, "in")?;
@@ -440,7 +453,7 @@ pub fn call_builtin(m: &mut Model, site: &ScopeRef, name: &str, args: Vec<V>) ->
                             _ => Ok(V::Float(f64::INFINITY)),
                         }
                     } else {
-                        let xs = m.force_stream(s)?;
+                        let xs = m.force_stream_quiet(s)?;
                         Ok(vint(xs.len() as i64))
                     }
                 }
